@@ -1,7 +1,7 @@
 (* C01: LapTimer files survive encode -> decode -> encode unchanged. *)
 From Coq Require Import String Ascii List ZArith NArith Bool Lia.
 From TT Require Import Base.Civil.
-From TT Require Import Base.Outcome Base.Str Base.F64 Xml.Print Xml.Lex Laptimer.Leaves Laptimer.Value Laptimer.Codec Proofs.Xml_proofs Proofs.Leaf_proofs Proofs.Doc_proofs Proofs.Doc_lt Proofs.Fixed_proofs Proofs.Leaf2_proofs.
+From TT Require Import Base.Outcome Base.Str Base.F64 Xml.Print Xml.Lex Laptimer.Leaves Laptimer.Value Laptimer.Codec Proofs.Xml_proofs Proofs.Leaf_proofs Proofs.Doc_proofs Proofs.Doc_lt Proofs.Fixed_proofs Proofs.Leaf2_proofs Proofs.Leaf3_proofs.
 Import ListNotations.
 Local Open Scope Z_scope.
 
@@ -128,3 +128,14 @@ Theorem C01_date_reencode :
     (exists l', quant_leaf (LvFixDate t) = Ok l' /\ leaf_text l' = leaf_text (LvFixDate t)).
 Proof. exact date_leaf_reencode. Qed.
 Print Assumptions C01_date_reencode.
+
+(* ---- every leaf at once ---- *)
+(* `leaf_dom`: texts of valid characters; fixed decimals printable below 2^51 units of their last
+   decimal; durations below 2^62 ns; dates 1969-2068; coordinates, altitude coordinates, relative
+   positions, gear ratios and intermediates built from those.  (Tyres, tag lists and sync points
+   are outside: the correspondence covers them.)  For every such leaf, decoding what was written
+   succeeds and writing the decoded value again produces the same text. *)
+Theorem C01_leaf_reencode :
+  forall l, leaf_dom l -> exists l', quant_leaf l = Ok l' /\ leaf_text l' = leaf_text l.
+Proof. exact leaf_reencode. Qed.
+Print Assumptions C01_leaf_reencode.
